@@ -180,7 +180,7 @@ Proof.
   destruct w as [|w0 wr]; cbn [is_empty orb]; [exact Rej|].
   destruct (drop_blanks (t0 :: tr)) as [|h0 hr] eqn:Eh; cbn [is_empty]; [exact Rej|].
   Transparent sha1_compute_hash. unfold sha1_compute_hash.
-  destruct (e_cookie e id) as [|k0 kr] eqn:Ec; cbn [is_empty]; [exact Rej|].
+  destruct (e_cookie e (a_nchal c - 1) id) as [|k0 kr] eqn:Ec; cbn [is_empty]; [exact Rej|].
   change colon with [58].
   destruct (hex_encode (sha1 (a_challenge c ++ [58] ++ (w0 :: wr) ++ [58] ++ k0 :: kr))) as [|x0 xr] eqn:Ex.
   { exfalso. eapply sha1_nonempty; eauto. }
